@@ -214,6 +214,10 @@ func (d *TSDDecoder) ResetWithTimeRange(data []byte, start, end uint16) {
 // Reset resets tsd data and reads the meta info from the data
 func (d *TSDDecoder) Reset(data []byte) {
 	if len(data) <= 4 {
+		// NOTE: forget the previous block, a reused decoder must not read it again after bad data
+		d.reset(nil)
+		d.startTime, d.endTime = 0, 0
+		d.reader.Reset()
 		d.err = fmt.Errorf("TSDDecoder resets with bad data")
 		return
 	}
